@@ -566,6 +566,12 @@ func describe(r resolved, n hast.Node) string {
 	if sub, ok := n.(*hast.SubExpression); ok {
 		return "(" + sub.Expression.Canonical() + ")"
 	}
+	if pe, ok := n.(*hast.PathExpression); ok {
+		if pe.Data {
+			return "@" + strings.Join(pe.Parts, ".")
+		}
+		return pe.Original
+	}
 	return n.String()
 }
 
